@@ -130,7 +130,7 @@ func randomCfg(g *rand.Rand, seed int64, family string) SchedCfg {
 		s.Strict = false
 	case "xferremoved":
 		b.Async = false
-	case "snapinactive":
+	case "snapinactive", "cqreports":
 		b.CheckQuorum = true
 	case "snapterm":
 		b.Async = true
@@ -419,7 +419,7 @@ func (x *gen) next(phase string) string {
 	return "tickall"
 }
 
-var phases = []string{"healthy", "chaos", "partition", "crashy", "confchange", "snapshots", "transfer", "reads", "limits", "stall", "dsnap", "fig8snap", "dupvote", "snaplead", "rereads", "snapapply", "aba", "xferjoint", "soloread", "readhb", "selfack", "oddcalls", "snapinactive", "snapterm", "xferremoved"}
+var phases = []string{"healthy", "chaos", "partition", "crashy", "confchange", "snapshots", "transfer", "reads", "limits", "stall", "dsnap", "fig8snap", "dupvote", "snaplead", "rereads", "snapapply", "aba", "xferjoint", "soloread", "readhb", "selfack", "oddcalls", "snapinactive", "snapterm", "xferremoved", "cqreports"}
 
 func (x *gen) isLeader(n *Node) bool {
 	if !n.alive || n.rn == nil {
@@ -746,6 +746,8 @@ func runRandom(s SchedCfg, nops int, tr *traceWriter) *Cluster {
 			x.directedSnapTerm()
 		case "xferremoved":
 			x.directedXferRemoved()
+		case "cqreports":
+			x.directedCQReports()
 		default:
 			for i, l := 0, 15+x.g.Intn(50); i < l && c.ops < nops; i++ {
 				c.exec(x.next(phase))
